@@ -13,7 +13,7 @@ CONF_RW = (25, 400)
 # property -> list of (profile, quick_count, thorough_count)
 PLANS = {
     "C01": [("base", 250, 6000), ("quit", 120, 2500), ("errors", 60, 1500)],
-    "C03": [("churn", 250, 6000), ("timeout", 80, 2000), ("bclose", 80, 2000)],
+    "C03": [("churn", 250, 6000), ("timeout", 80, 2000), ("bclose", 80, 2000), ("leftover", 80, 2000)],
     "C07": [("base", 200, 5000), ("fwdonly", 150, 4000), ("errors", 150, 4000)],
     "C09": [("gate", 250, 6000), ("fwdonly", 150, 4000)],
     "C10": [("base", 200, 5000), ("fwdonly", 200, 5000), ("redirect", 150, 4000), ("redirorder", 60, 1500)],
@@ -110,7 +110,7 @@ def run(pid, tier, seed):
             n = nq if q else nt
             scs = gen_core.gen_many(seed, prof, n)
             ncf = CONF_RW[0] if q else CONF_RW[1]
-            plain = [s for s in scs if not any(st["op"] in ("answerhead", "answerrest") for st in _stims(s))]
+            plain = [s for s in scs if not any(st["op"] in ("answerhead", "answerrest", "raw") for st in _stims(s))]   # (not in the design model)
             rest = [s for s in scs if s not in plain[:ncf]]
             conf_consts = {"TimeoutOn": "TRUE" if gen_core.PROFILES[prof].get("timeout") else "FALSE"}
             groups.append((gen_core.cfg_for(prof), plain[:ncf], "rwc-" + prof, conf_consts))
